@@ -1,0 +1,9 @@
+// SPDX-FileCopyrightText: 2026 The Pion community <https://pion.ly>
+// SPDX-License-Identifier: MIT
+
+//go:build !verif && !js
+
+package webrtc
+
+// verifStartTransports observes the arguments of startTransports; it does nothing unless built with -tags verif.
+func verifStartTransports(*PeerConnection, ICERole, DTLSRole) {}
